@@ -165,3 +165,73 @@ Definition fs_wf (P : list fs_plaq) (ep : list (option nat * option nat)) : bool
                                     && match y with Some b => (b <? length P)%nat | None => true end
                         end) ep.
 Definition fs_pm1 (l : list Z) : bool := forallb (fun x => (x =? 1) || (x =? -1)) l.
+
+(* ---------- _greedy_plaquette_pairing as coded, flux_finder.py:141-154 ----------
+   The two implementation-defined choices are ORACLES:
+     pick    : which element  to_pair.pop()  yields (CPython: hash-table order) — any member of the non-empty set;
+     nearest : which element  min((distance_func(cur, o), o) for o in to_pair)  selects (float distance, ties by
+               the tuple's second component, NaN behaviour) — any member of the non-empty set it ranges over.
+   A Python set is a duplicate-free list here (its order is irrelevant: the oracles see all of it). *)
+Definition fs_mem (x : nat) (l : list nat) : bool := existsb (Nat.eqb x) l.
+(* :145  set(plaquettes) *)
+Fixpoint fs_set_of (l : list nat) : list nat :=
+  match l with
+  | [] => []
+  | x :: r => if fs_mem x r then fs_set_of r else x :: fs_set_of r
+  end.
+(* the set without x (what .pop() leaves behind / .remove(x)) *)
+Definition fs_set_remove (x : nat) (s : list nat) : list nat := filter (fun y => negb (y =? x)%nat) s.
+
+Inductive fs_greedy_result :=
+| FG_Pairs (pairs : list (nat * nat))     (* :154 np.array(pairs) *)
+| FG_MinEmptyError                        (* :149 ValueError: min() arg is an empty sequence (cur was the last element) *)
+| FG_OutOfFuel.                           (* model artefact: the while loop did not end within the fuel *)
+
+Section Greedy.
+  Variable pick : list nat -> nat.
+  Variable nearest : nat -> list nat -> nat.
+
+  Fixpoint fs_greedy_loop (fuel : nat) (to_pair : list nat) : fs_greedy_result :=
+    match to_pair with
+    | [] => FG_Pairs []                                                   (* :147 while to_pair: *)
+    | _ :: _ =>
+      match fuel with
+      | O => FG_OutOfFuel
+      | S f =>
+        let cur := pick to_pair in                                        (* :148 cur = to_pair.pop() *)
+        let rest := fs_set_remove cur to_pair in
+        match rest with
+        | [] => FG_MinEmptyError                                          (* :149 min over an empty generator *)
+        | _ :: _ =>
+          let closest := nearest cur rest in                              (* :149-150 *)
+          match fs_greedy_loop f (fs_set_remove closest rest) with        (* :152 to_pair.remove(closest) *)
+          | FG_Pairs ps => FG_Pairs ((cur, closest) :: ps)                (* :151 pairs.append((cur, closest)) *)
+          | err => err
+          end
+        end
+      end
+    end.
+
+  (* :142-145  an odd array loses its last entry; fuel = size of the set *)
+  Definition fs_greedy_run (defects : list nat) : fs_greedy_result :=
+    let s := fs_set_of (fs_drop_last_if_odd defects) in
+    fs_greedy_loop (length s) s.
+  (* as a [pairing] argument of fs_solve (the error cases are proved unreachable on duplicate-free input:
+     Proofs/GreedyPairingFacts.v greedy_pairing_no_error) *)
+  Definition greedy_pairing (defects : list nat) : list (nat * nat) :=
+    match fs_greedy_run defects with FG_Pairs ps => ps | _ => [] end.
+End Greedy.
+
+(* oracles replaying the choices the implementation made (captured pairs, in order): pick = the first captured
+   `cur` still in the set; nearest = the `closest` captured with that `cur`; any member (the head) when the
+   captured value is not admissible, so that both are admissible oracles whatever was captured *)
+Definition fs_replay_pick (caps : list (nat * nat)) (l : list nat) : nat :=
+  match find (fun ab => fs_mem (fst ab) l) caps with
+  | Some ab => fst ab
+  | None => hd 0%nat l
+  end.
+Definition fs_replay_nearest (caps : list (nat * nat)) (c : nat) (l : list nat) : nat :=
+  match find (fun ab => (fst ab =? c)%nat) caps with
+  | Some ab => if fs_mem (snd ab) l then snd ab else hd 0%nat l
+  | None => hd 0%nat l
+  end.
